@@ -1,7 +1,7 @@
 /-
 Model of `encoding/src/decode/adaptive_le.rs` (C08):
   `AdaptiveVRLittleEndianDecoder::decode_header` with its `Unknown / Explicit / Implicit` state,
-  `vr_compatible_with_virtual`, `resolve_vr`, `decode_explicit_header`, `decode_explicit_length`
+  `vr_compatible_with_virtual` (arms regenerated from the source: Gen/VrCompat.lean, translators/vr_compat.py), `resolve_vr`, `decode_explicit_header`, `decode_explicit_length`
   (the short-VR list is `Gen.adaptiveShort`, regenerated from the source by translators/vr_tables.py),
   `decode_implicit_length`, `decode_item_header`;
 and of how `parser/src/dataset/read.rs` plugs it in (`DataSetReaderOptions::flexible_decoding` with a
@@ -10,6 +10,7 @@ little-endian transfer syntax: the transfer syntax's own decoder is replaced, st
 The data dictionary is a parameter `dictV : Tag → Option VVr` (`by_tag(tag).map(|e| e.vr())`).
 -/
 import DicomModel.Model.DsReader
+import DicomModel.Gen.VrCompat
 namespace Dicom.Rd
 
 /-- `VirtualVr` -/
@@ -26,13 +27,22 @@ def VVr.relaxed : VVr → VR
   | .px => .OW
   | .lt => .OW
 
-/-- `vr_compatible_with_virtual(probed, dict_vr)` -/
+/-- evaluation of one extracted arm of `vr_compatible_with_virtual`; `own` = the VR carried by an
+`Exact` entry -/
+def compatRule (r : Gen.CompatRule) (probed : VR) (own : Option VR) : Bool :=
+  match r with
+  | .same => own == some probed
+  | .among l => l.contains probed
+  | .const b => b
+
+/-- `vr_compatible_with_virtual(probed, dict_vr)`: the arms are regenerated from the source on every check
+(`Gen/VrCompat.lean`, translators/vr_compat.py) -/
 def vrCompat (probed : VR) : VVr → Bool
-  | .exact vr => probed = vr
-  | .xs => probed = .US ∨ probed = .SS
-  | .ox => probed = .OB ∨ probed = .OW
-  | .px => probed = .OB ∨ probed = .OW
-  | .lt => probed = .US ∨ probed = .OW
+  | .exact vr => compatRule Gen.compatExact probed (some vr)
+  | .xs => compatRule Gen.compatXs probed none
+  | .ox => compatRule Gen.compatOx probed none
+  | .px => compatRule Gen.compatPx probed none
+  | .lt => compatRule Gen.compatLt probed none
 
 /-- `VrState` -/
 inductive VrState where
